@@ -284,7 +284,8 @@ class Interp:
         env['__func__'] = fi
         is_gen = any(isinstance(n_, (ast.Yield, ast.YieldFrom)) for n_ in _walk_own(fi.node))
         if is_gen:
-            env['__yields__'] = []          # a generator is run eagerly: its result is the list of what it yields
+            env['__yields__'] = _SharedList()          # a generator is run eagerly: its result is the list of what it yields (one list, whatever branch yields)
+            env['__ycond0__'] = len(self.conds)
         self.depth += 1
         self.stack.append(fi.qual)
         self.frames.append(env)
@@ -417,7 +418,12 @@ class Interp:
     def _stmt(self, st, env, mod):
         if isinstance(st, ast.Expr):
             if isinstance(st.value, ast.Yield) and '__yields__' in env:
-                env['__yields__'].append(self.expr(st.value.value, env, mod) if st.value.value is not None else None)
+                v_ = self.expr(st.value.value, env, mod) if st.value.value is not None else None
+                c_ = Poly.const(1)
+                for x_ in self.conds[env.get('__ycond0__', len(self.conds)):]:
+                    c_ = c_ * x_
+                # a yield inside a data-dependent branch of the generator: the consumer sees the item under that condition
+                env['__yields__'].append(v_ if c_ == Poly.const(1) else _Guarded(c_, v_))
                 return None
             if isinstance(st.value, ast.YieldFrom) and '__yields__' in env:
                 src_ = self.expr(st.value.value, env, mod)
@@ -620,6 +626,22 @@ class Interp:
             self.assumed.append((mod.path, st.lineno, up(st.test), dec, 'configuration'))
         if dec is not None:
             return self.block(st.body if dec else st.orelse, env, mod)
+        if not st.orelse and isinstance(tv, Arr) and tv.ndim == 0 and tv.mask is None and tv.poly.is_monomial():
+            # `if np.any(m): x[m] = v`: where the mask holds nowhere the masked stores change nothing, so the body may as well run unconditionally
+            (m_, c_), = tv.poly.t.items()
+            if c_ == 1 and len(m_) == 1 and m_[0][1] == 1 and m_[0][0][0] == 'fn' and m_[0][0][1] == 'any' and len(m_[0][0]) == 3 and m_[0][0][2][0] == 'B':
+                lab_, mk_ = m_[0][0][2][1], Poly.from_key(m_[0][0][2][2])
+
+                def masked_by(t_):
+                    if not isinstance(t_, ast.Subscript):
+                        return False
+                    try:
+                        ix_ = self.expr(t_.slice, dict(env), mod)
+                    except Exception:
+                        return False
+                    return isinstance(ix_, Arr) and ix_.ndim == 1 and ix_.dims == (lab_,) and ix_.poly == mk_
+                if st.body and all(isinstance(b_, ast.Assign) and all(masked_by(t_) for t_ in b_.targets) for b_ in st.body):
+                    return self.block(st.body, env, mod)
         # raise-guards are preconditions: if one side only raises, take the other
         b_raises = _only_raises(st.body)
         o_raises = bool(st.orelse) and _only_raises(st.orelse)
@@ -720,15 +742,39 @@ class Interp:
         gen = self._generic_iter(itv, st)
         if gen is not None:
             if isinstance(gen, list):          # concrete unrolling
-                pending, cur = [], env
+                pending, cur, rets = [], env, []
                 try:
                     for v in gen:
+                        if isinstance(v, _Guarded):
+                            # an item the generator yields under a condition: the body runs under it, and what it changes is selected by it
+                            e_run, e_skip = fork(cur), fork(cur)
+                            self.store(st.target, v.value, e_run, mod)
+                            self.conds.append(v.cond)
+                            try:
+                                sig = self.block(st.body, e_run, mod)
+                            finally:
+                                self.conds.pop()
+                            if sig and sig[0] != 'continue':
+                                u_ = Unk('a loop body that leaves the loop on an item yielded under a condition', st)
+                                self._poison(st, env, u_)
+                                env['__tainted__'] = u_
+                                return None
+                            merge_env(cur, e_run, e_skip, v.cond, st)
+                            continue
                         self.store(st.target, v, cur, mod)
                         sig = self.block(st.body, cur, mod)
                         if sig:
                             if sig[0] == 'bguard':
                                 _, c_, e_brk_, e_go_ = sig
                                 pending.append((c_, e_brk_, cur))
+                                self.conds.append(alg.b_not(c_))
+                                cur = e_go_
+                                continue
+                            if sig[0] == 'rguard':
+                                # `if c: return v` inside the loop: the later iterations run under (not c); the value returned is kept
+                                _, c_, val_, e_ret_, e_go_ = sig
+                                rets.append((c_, val_))
+                                pending.append((c_, e_ret_, cur))
                                 self.conds.append(alg.b_not(c_))
                                 cur = e_go_
                                 continue
@@ -742,12 +788,20 @@ class Interp:
                                 env['__tainted__'] = u_
                                 return None
                             return sig
-                    return None
+                    done_ = True
                 finally:
                     for c_, e_brk_, outer_ in reversed(pending):
                         self.conds.pop()
                         merge_env(outer_, e_brk_, cur, c_, st)
                         cur = outer_
+                if rets:
+                    # the loop ran to its end on the paths that did not return: what follows the loop runs under "none of the conditions held"
+                    C_, V_ = rets[0]
+                    for c_, v_ in rets[1:]:
+                        V_ = merge_val(V_, v_, C_, st)
+                        C_ = C_ + alg.b_not(C_) * c_
+                    return ('rguard', C_, V_, fork(env), env)
+                return None
             self.store(st.target, gen, env, mod)
             sig = self.block(st.body, env, mod)
             return sig if sig and sig[0] in ('return', 'raise') else None
@@ -898,6 +952,8 @@ class Interp:
         o.attrs[name] = val
 
     def getattr(self, o, name, node, mod):
+        if name == '__class__' and o.cls is not None:
+            return ClassRef(o.cls)
         dg = self._descriptor(o, name, '__get__') if o.cls is not None and any(name in c.class_attrs for c in self.repo.mro(o.cls)) else None
         if dg is not None and (name not in o.attrs or self.repo.find_member(dg[0].cls, '__set__') is not None):
             return self.call(dg[1], [o, ClassRef(o.cls)], selfv=dg[0], node=node)          # a descriptor of the class (a data descriptor wins over the instance)
@@ -1376,6 +1432,8 @@ class Interp:
             if isinstance(itv0, Obj):
                 itv0 = self.iterate_obj(itv0, e)
             gen0 = self._generic_iter(itv0, e)
+            if isinstance(gen0, list) and any(isinstance(x_, _Guarded) for x_ in gen0):
+                return Unk('comprehension over items yielded under a data-dependent condition', e)
             if isinstance(gen0, list):
                 sub = dict(env)
                 out, ok_ = [], True
@@ -1404,6 +1462,8 @@ class Interp:
             g = e.generators[0]
             itv = self.expr(g.iter, env, mod)
             gen = self._generic_iter(itv, e)
+            if isinstance(gen, list) and any(isinstance(x_, _Guarded) for x_ in gen):
+                return Unk('comprehension over items yielded under a data-dependent condition', e)
             sub = dict(env)
             if isinstance(gen, list):
                 out = []
@@ -1422,7 +1482,12 @@ class Interp:
             # a slice met as a value (the key handed to a modelled library object): the same as slice(lo, hi, step)
             return _SliceVal(*[(self.expr(x_, env, mod) if x_ is not None else None) for x_ in (e.lower, e.upper, e.step)])
         if isinstance(e, ast.Lambda):
-            return Unk('lambda', e)
+            # lambda args: expr  is a nested function whose body returns the expression, with the scope it is written in
+            from .loader import FuncInfo
+            fd_ = ast.FunctionDef(name='<lambda>', args=e.args, body=[ast.copy_location(ast.Return(value=e.body), e)], decorator_list=[], returns=None, type_comment=None)
+            ast.copy_location(fd_, e)
+            ast.fix_missing_locations(fd_)
+            return Closure(FuncInfo(mod, None, fd_), env)
         if isinstance(e, ast.Starred):
             return Unk('starred', e)
         return Unk('expression %s' % type(e).__name__, e)
@@ -1716,6 +1781,15 @@ class Interp:
             cv_ = self.class_attr(v.ci, name)
             if cv_ is not _MISSING:
                 return cv_
+            if name == '__new__':
+                # cls.__new__(cls): a bare instance, no __init__ run
+                def _new(c_=None, *a_, **k_):
+                    o_ = Obj(c_.ci if isinstance(c_, ClassRef) else v.ci, {})
+                    o_.strict = True
+                    return o_
+                return _new
+            if name == '__name__':
+                return v.ci.name
             return Unk('class attribute %s.%s' % (v.ci.name, name), e)
         if isinstance(v, Marker):
             if v.name in ('numpy', 'np') and name == 'newaxis':
@@ -3115,6 +3189,16 @@ class Fmt(Foreign):
         return 'Fmt<%r %% %d values>' % (self.fmt[:30], len(self.values))
 
 
+class _SharedList(list):
+    """a list that a fork of the environment does not copy (the items a generator has yielded so far)"""
+
+
+class _Guarded:
+    """an item yielded under a data-dependent condition"""
+    def __init__(self, cond, value):
+        self.cond, self.value = cond, value
+
+
 class _SelectVal:
     """one of two plain values (pieces of text), chosen by a data-dependent condition"""
     def __init__(self, cond, a, b):
@@ -3571,7 +3655,7 @@ def fork(env):
     # modules, FuncInfo, ClassInfo are shared; values are copied
     out = {}
     for k, v in env.items():
-        out[k] = _copy_val(v, memo)
+        out[k] = v if isinstance(v, _SharedList) else _copy_val(v, memo)
     return out
 
 
@@ -3637,6 +3721,8 @@ _MISSING = object()
 
 def merge_into(orig, a, b, cond, node):
     """Merge the two branch values, updating mutable originals in place so object identity survives a fork."""
+    if isinstance(orig, _SharedList) and a is orig and b is orig:
+        return orig
     if a is _MISSING or b is _MISSING:
         return Unk('bound on one branch only', node)
     if isinstance(orig, Obj) and isinstance(a, Obj) and isinstance(b, Obj) and a.cls is b.cls:
